@@ -549,17 +549,23 @@ class Verifier:
                 s.add(sym._ABS_SIDE)
             return s, (s.check(*labs) if guarded else s.check())
         overapprox_core = False
-        # (1) nonlinear abstraction first: linear + EUF, fast and stable; only `unsat` is trusted
-        s, r = attempt(sym.abstract_nl, QUICK_MS)
-        if r == z3.unknown and labs:
-            # (1b) a query that is not immediate: try it with the callee clauses asserted outright (for congruence-style goals such
-            # as xrecover/val this takes 0.0 s where the guarded form takes 0.5-60 s depending on load).  If that proves the goal,
-            # the dependencies are over-approximated by ALL callee clauses assumed on this path (a larger cone: sound for the closure)
-            s0, r0 = attempt(sym.abstract_nl, UNGUARDED_MS, guarded=False)
+        # (1) nonlinear abstraction first: linear + EUF, fast and stable; only `unsat` is trusted.  Two forms of the same query are
+        # alternated with escalating budgets: callee clauses guarded by their tracking literals (gives the exact dependency core), and
+        # asserted outright (the solver can then substitute `result == <spec term>` equalities).  Measured: for congruence-style goals
+        # (xrecover/val) the unguarded form takes 0.0 s where the guarded one takes 0.5-60 s depending on load; for
+        # bytes_to_element/undecodable it is the other way round (2 s vs > 60 s).  When only the unguarded form proves the goal the
+        # dependencies are over-approximated by ALL callee clauses assumed on the path (a larger cone: sound for the closure).
+        r = z3.unknown
+        for ms in (QUICK_MS, 4 * QUICK_MS, TIMEOUT_MS):
+            s, r = attempt(sym.abstract_nl, ms)
+            if r != z3.unknown or not labs:
+                if r != z3.unknown:
+                    break
+                continue
+            s0, r0 = attempt(sym.abstract_nl, ms, guarded=False)
             if r0 == z3.unsat:
                 s, r, overapprox_core = s0, r0, True
-        if r == z3.unknown:
-            s, r = attempt(sym.abstract_nl, TIMEOUT_MS)
+                break
         if r != z3.unsat and not os.environ.get("PYVC_NO_EXACT"):
             # (2) exact query
             s, r = attempt(lambda f: f, TIMEOUT_MS)
@@ -818,7 +824,7 @@ class Verifier:
                         if npaths > 250:
                             rep.errors.append("path explosion (more than 250 paths)")
                             break
-                        if time.time() - tv > float(os.environ.get("PYVC_FN_BUDGET_S", "180")):
+                        if time.time() - tv > float(os.environ.get("PYVC_FN_BUDGET_S", "400")):
                             rep.errors.append("time budget for one function exceeded after %d paths" % npaths)
                             break
                         self.run_path(rep, c, finfo, case, ci, trace, pending, canaries)
